@@ -44,7 +44,7 @@ pub enum Op {
     },
     /// `Commands` forms issued from a one-shot driver system. via: 0 `Commands::syscall`, 1
     /// `Commands::syscall_with_validation`, 2 `Commands::syscall_once`, 3 `Commands::syscall_once_with_validation`,
-    /// 4 `EntityCommands::syscall`
+    /// 4..7 the same four through `EntityCommands`
     CmdSyscall {
         f: Fun,
         x: u32,
@@ -269,14 +269,20 @@ fn exec_op(w: &mut World, op: &Op) {
                     }
                 };
             }
-            w.syscall_once((x, call, nested), move |In(input): In<Input>, mut c: Commands| match via % 5 {
+            w.syscall_once((x, call, nested), move |In(input): In<Input>, mut c: Commands| match via % 8 {
                 0 => unit_fun!(i, s, c.syscall(input, s)),
                 1 => unit_fun!(i, s, c.syscall_with_validation(input, s, note_validation)),
                 2 => unit_fun!(i, s, c.syscall_once(input, s)),
                 3 => unit_fun!(i, s, c.syscall_once_with_validation(input, s, note_validation)),
-                _ => {
+                // the `EntityCommands` forms of the same four
+                k => {
                     let e = c.spawn_empty().id();
-                    unit_fun!(i, s, c.entity(e).syscall(input, s))
+                    match k {
+                        4 => unit_fun!(i, s, c.entity(e).syscall(input, s)),
+                        5 => unit_fun!(i, s, c.entity(e).syscall_with_validation(input, s, note_validation)),
+                        6 => unit_fun!(i, s, c.entity(e).syscall_once(input, s)),
+                        _ => unit_fun!(i, s, c.entity(e).syscall_once_with_validation(input, s, note_validation)),
+                    }
                 }
             });
             ret(&log, call, Outc::Queued);
@@ -406,7 +412,7 @@ fn gen_op(r: &mut Rng, depth: u32, max_depth: u32) -> Op {
     match r.below(21) {
         0..=4 => Op::Syscall { f: gen_fun(r), x, nested, via: r.below(5) as u8 },
         5 => Op::SyscallOnce { f: gen_fun(r), x, nested, via: r.below(2) as u8 },
-        6 => Op::CmdSyscall { f: gen_fun(r), x, nested, via: r.below(5) as u8 },
+        6 => Op::CmdSyscall { f: gen_fun(r), x, nested, via: r.below(8) as u8 },
         7..=9 => Op::Named { name: r.below(NN as usize) as u8, f: gen_fun(r), x, nested },
         10..=11 => Op::NamedDirect { name: r.below(NN as usize) as u8, f: gen_fun(r), x, nested },
         12 => {
@@ -599,7 +605,7 @@ impl ModelFull {
                     let i = match f {
                         Fun::Ord(i) | Fun::Excl(i) => *i,
                     };
-                    let r = if matches!(via % 5, 2 | 3) {
+                    let r = if matches!(via % 8, 2 | 3 | 6 | 7) {
                         // the `once` forms never cache the system
                         self.keys_touched.insert(format!("cmd-syscall-once:{i}"));
                         self.bodies.insert(call, (Fun::Ord(i), 1));
